@@ -259,7 +259,12 @@ func childC04(args []string) int {
 	env := newC04Env(run)
 	env.st.SetLogging(true)
 	id := uint32(1)
+	hangs := 0
 	for ci, cs := range cases {
+		if hangs >= 3 {
+			run.Count("round_trips_skipped_after_3_hangs", 1)
+			continue
+		}
 		key := strings.Repeat("k", cs.kl-1) + string(rune('a'+ci%26))
 		if cs.kl == 1 {
 			key = string(rune('a' + ci%26))
@@ -291,6 +296,9 @@ func childC04(args []string) int {
 				// start from a clean handler after a failure
 				env.close()
 				env = newC04Env(run)
+				if strings.Contains(d, "observed=hang") {
+					hangs++
+				}
 				break
 			}
 		}
@@ -329,6 +337,15 @@ func childC04(args []string) int {
 		run.Count("backend_requests_checked", env.cm.requests)
 		run.Count("orphan_chunks_seen", env.cm.orphans)
 		env.close()
+		if failed >= 0 && strings.Contains(diff, "observed=hang") {
+			hangs++
+			run.Violation(fmt.Sprintf("chunked|sequence|spare=%v|%s|%s", spare > 0, cmds[failed].Op, diff),
+				map[string]interface{}{"spare_cap": spare, "commands": cmds[:failed+1], "trace": tail(env.trace, 8)})
+			if hangs >= 6 {
+				break
+			}
+			continue
+		}
 		if failed >= 0 {
 			small := shrink(cmds[:failed+1], diff, func(cand []wire.Cmd) string {
 				e2 := newC04Env(run)
